@@ -20,6 +20,23 @@ class ExtractError(Exception):
     pass
 
 
+# A unit rule carries the number of times it is expected to fire on the unchanged tree.  A different count means the
+# repository text changed.  That is NOT by itself a reason to give up (exit 2): text the rules no longer translate
+# reaches goto-cc as C++ and fails to compile (exit 2 then), and text that still translates is judged by the contract --
+# which is the whole point.  Deviations are therefore logged (drop report, evidence) and only fatal with
+# CXC_STRICT_RULES=1 (used while developing a unit, to notice rules that are dead on the unchanged tree).
+STRICT = os.environ.get('CXC_STRICT_RULES', '0') == '1'
+DEVIATIONS = []
+
+
+def _count_deviation(what, pat, n, expected, log):
+    if STRICT:
+        raise ExtractError('%s %r fired %d times, expected %s' % (what, pat, n, expected))
+    d = {'rule': pat, 'fired': n, 'expected': expected, 'note': 'count differs from the unchanged tree'}
+    DEVIATIONS.append(d)
+    log.append(dict(d, deviation=True))
+
+
 # ----------------------------------------------------------------------------
 # brace / paren matching that skips comments, strings and char literals
 # ----------------------------------------------------------------------------
@@ -156,8 +173,7 @@ class Rule(object):
         if self.count is not None:
             ok = (n >= 1) if self.count == '+' else (n == self.count)
             if not ok:
-                raise ExtractError('rule %r fired %d times, expected %s'
-                                   % (self.pat, n, self.count))
+                _count_deviation('rule', self.pat, n, self.count, log)
         if n or not generic:
             log.append({'rule': self.pat, 'repl': self.repl if isinstance(self.repl, str) else '<fn>',
                         'fired': n, 'why': self.why})
@@ -237,7 +253,7 @@ class IdxRule(object):
             n += 1
         ok = (n >= 1) if self.count == '+' else (self.count is None or n == self.count)
         if not ok:
-            raise ExtractError('IDX rule %r fired %d times, expected %s' % (self.array, n, self.count))
+            _count_deviation('IDX rule', self.array, n, self.count, log)
         log.append({'rule': 'R-idx %s[e] -> [IDX(e,%s)]' % (self.array, self.length), 'fired': n})
         return ''.join(out)
 
@@ -429,7 +445,7 @@ class UF(object):
         new, n = re.subn(self.pat, sub, text, flags=self.flags)
         ok = (n >= 1) if self.count == '+' else (self.count is None or n == self.count)
         if not ok:
-            raise ExtractError('UF rule %r fired %d times, expected %s' % (self.pat, n, self.count))
+            _count_deviation('UF rule', self.pat, n, self.count, log)
         log.append({'rule': 'R-arith ' + self.pat, 'fired': n,
                     'rewrites': [{'from': a, 'to': b} for a, b in fired]})
         return new
@@ -472,7 +488,7 @@ class UFArgs(object):
             n += 1
         ok = (n >= 1) if self.count == '+' else (self.count is None or n == self.count)
         if not ok:
-            raise ExtractError('UFArgs rule %r fired %d times, expected %s' % (self.names, n, self.count))
+            _count_deviation('UFArgs rule', self.names, n, self.count, log)
         log.append({'rule': 'R-arith args of ' + self.names, 'fired': n, 'calls': fired[:20]})
         return ''.join(out)
 
@@ -506,7 +522,7 @@ class Cmp(object):
         new, n = rx.subn(sub, text)
         ok = (n >= 1) if self.count == '+' else (self.count is None or n == self.count)
         if not ok:
-            raise ExtractError('Cmp rule fired %d times, expected %s' % (n, self.count))
+            _count_deviation('Cmp rule', self.atom, n, self.count, log)
         log.append({'rule': 'R-cmp scalar comparisons -> UF_LESS/UF_LE', 'fired': n, 'sites': fired})
         return new
 
